@@ -6,10 +6,12 @@ core (`Rooc/Pre/Expand.lean`: the aggregation folds of `into_exp`, `range`, `enu
 independent reference unroller (see `tools/props/C06.json`: planned as a theorem).
 -/
 import Rooc.Pre.Expand
+import Rooc.Pre.Graph
 import Rooc.Sem
 import Rooc.Proofs.Field
 import Rooc.Proofs.Pre
 import Rooc.Proofs.Iter
+import Rooc.Proofs.PreProgram
 import Mathlib.Algebra.BigOperators.Group.List.Basic
 namespace Rooc.Props.C06
 set_option linter.unusedSectionVars false
@@ -216,7 +218,62 @@ example :
     | ok e' => simp [unroll_is_flat [] _ e' h]
   · simp [expand, iterate, envs, It.shapeOk, declareAll, Env.get, Src.rows, CE.eval, rangeVals, intsFrom, mapE, bindRow, idxFrag, aggregate]
 
+/-- **whole programs** (`Rooc/Pre/Program.lean`: `where` constants, `define` declarations with
+iterations and evaluated bounds, duplicate detection, objective, named and `for`-quantified constraints,
+usage counts, references outside the domain): transforming a program gives exactly the `Model` —
+same constraints in the same order with the same names, same objective, same variable set, domains and
+usage counts — that transforming its hand-unrolled program gives; and one fails iff the other does.
+(`wf`: every declaration names at least one variable, which the grammar guarantees.) -/
+theorem program_expand_eq_unroll (p : ProgM) (hwf : p.wf = true) :
+    (transformCore p : Except IErr (Model α)).toOption = (unrollProg p >>= fun q => transformCore q).toOption := by
+  apply Rooc.Proofs.Program.transformCore_unroll
+  intro d hd
+  have := List.all_eq_true.mp hwf d hd
+  simp only [DeclM.wf, Bool.not_eq_true', List.isEmpty_eq_false_iff] at this
+  exact this
+
+/-- the hand-unrolled program has no `where` section and no iteration left -/
+theorem unrolled_program_is_plain (p q : ProgM) (h : unrollProg p = .ok q) :
+    q.consts = [] ∧ (∀ c ∈ q.cons, c.its = []) ∧ (∀ d ∈ q.decls, d.its = []) :=
+  Rooc.Proofs.Program.unrollProg_plain p q h
+
+example : (⟨[("n", .lit 2)], none, [⟨none, .var "z", some (.ge, .lit 0), []⟩], [⟨[.plain "z"], .real none, []⟩]⟩ : ProgM).wf = true := by decide
+
 end fragment
+
+/-! ### graph iterables and set functions (`Rooc/Pre/Graph.lean`) -/
+section graphs
+variable {α : Type}
+
+/-- `edges(G)` contains exactly the edges of the nodes of `G` … -/
+theorem edges_spec (g : Graph α) (e : GEdge α) : e ∈ g.edges ↔ ∃ n ∈ g.nodes, e ∈ Graph.neighEdges n := by
+  simp [Graph.edges, Graph.nodes, Graph.neighEdges, List.mem_flatMap]
+/-- … in node order: iterating `edges(G)` is iterating `neigh_edges(n)` for `n in nodes(G)` -/
+theorem edges_eq_neigh_of_nodes (g : Graph α) : g.edges = g.nodes.flatMap Graph.neighEdges := rfl
+theorem edges_length (g : Graph α) : g.edges.length = (g.nodes.map (fun n => (Graph.neighEdges n).length)).sum := by
+  simp [Graph.edges, Graph.nodes, Graph.neighEdges, List.length_flatMap]
+
+/-- `neigh_edges_of(name, G)` is the edge list of the FIRST node called `name`, and fails exactly when
+no node has that name -/
+theorem neighEdgesOf_spec (name : String) (g : Graph α) (es : List (GEdge α)) (h : Graph.neighEdgesOf name g = some es) :
+    ∃ n ∈ g, n.name = name ∧ es = n.edges := by
+  simp only [Graph.neighEdgesOf, Option.map_eq_some_iff] at h
+  obtain ⟨n, hn, rfl⟩ := h
+  exact ⟨n, List.mem_of_find?_eq_some hn, by simpa using List.find?_some hn, rfl⟩
+theorem neighEdgesOf_none_iff (name : String) (g : Graph α) : Graph.neighEdgesOf name g = none ↔ ∀ n ∈ g, n.name ≠ name := by
+  simp [Graph.neighEdgesOf, List.find?_eq_none]
+
+/-- an edge without weight destructures with weight 1 -/
+theorem spread_default_weight [Arith α] (a b : String) : (GEdge.spread (⟨a, b, none⟩ : GEdge α)).2.2 = Arith.ofInt 1 := rfl
+
+/-- `intersection` and `difference` select elements of their first argument, keeping its order -/
+theorem svalInter_sublist [Arith α] (a b : List (SVal α)) : (svalInter a b).Sublist a := List.filter_sublist
+theorem svalDiff_sublist [Arith α] (a b : List (SVal α)) : (svalDiff a b).Sublist a := List.filter_sublist
+/-- every element is in exactly one of them -/
+theorem svalInter_diff_partition [Arith α] (a b : List (SVal α)) (x : SVal α) (hx : x ∈ a) :
+    (x ∈ svalInter a b ∧ x ∉ svalDiff a b) ∨ (x ∉ svalInter a b ∧ x ∈ svalDiff a b) := by
+  cases h : svalContains b x <;> simp [svalInter, svalDiff, hx, h]
+end graphs
 
 /-! ### names: `flatten_variable_name` -/
 
